@@ -1,5 +1,8 @@
 use crate::push::state::PushState;
+#[cfg(not(feature = "verif"))]
 use std::collections::HashMap;
+#[cfg(feature = "verif")]
+use crate::push::verif_seam::DetMap as HashMap;
 
 use crate::push::boolean::*;
 use crate::push::code::*;
